@@ -111,6 +111,24 @@ def check_case(case, scratch, stats=None):
             stats.outcomes[f'{v.kind}/{iface}/{gem.brief(o)}'] += 1
         if j:
             out.append({'sig': j[0], 'case': case, 'message': j[1]})
+    for sp in case.get('single_paths', ()):
+        exp, detail = refverify.expected_path_verify(root, TOP, sp)
+        o = gem.call(lambda: gem.loader(root, TOP).assert_path_verifies(sp))
+        b = gem.brief(o)
+        if stats is not None:
+            stats.transitions += 1
+            stats.outcomes[f'path:{exp}/{b}'] += 1
+            if exp != 'dontcare':
+                stats.counters['single_path_compared'] += 1
+        bad = None
+        if exp == 'pass' and b != 'ret:None':
+            bad = 'single_path_rejected'
+        elif exp == 'mismatch' and b != 'exc:ManifestMismatch':
+            bad = 'single_path_accepted' if o['kind'] == 'ret' else 'single_path_wrong_failure'
+        if bad:
+            sig = {'check': bad, 'iface': 'assert_path_verifies', 'expected': exp, 'got': b}
+            out.append({'sig': sig, 'case': dict(case, single_paths=[sp]),
+                        'message': f'{bad}: path {sp!r}: reference {exp} ({detail}), got {b}'})
     if stats is not None:
         stats.evaluations += 1
         if v.kind == 'dontcare':
@@ -250,7 +268,7 @@ def manifest_tamper(mp):
     return ('tamper_submanifest', f)
 
 
-def run_mutations(make_scenario, bound, desc0, paths, stats, scratch, with_entry=True):
+def run_mutations(make_scenario, bound, desc0, paths, stats, scratch, with_entry=True, single=False):
     """Explore all mutation sets of size <= bound over the scenario."""
     viols = []
 
@@ -298,6 +316,8 @@ def run_mutations(make_scenario, bound, desc0, paths, stats, scratch, with_entry
         tree, path, applied = res
         desc = (desc0, tuple(applied), path)
         case = {'tree': tree.to_json(), 'path': path, 'desc': repr(desc)}
+        if single and path == '':
+            case['single_paths'] = sorted(set(tree.files) | set(make_scenario().tree.files))
         vs, v = check_case(case, scratch, stats)
         stats.case(desc, nontrivial=bool(applied or path) and v.kind != 'dontcare')
         if len(stats.samples) < 2 and applied:
@@ -543,7 +563,8 @@ def f4_run(spec, tier, seed, scratch, stats):
         sc.post = post
         tree = sc.build()
         desc = (spec, inside, hidden, vpath)
-        case = {'tree': tree.to_json(), 'path': vpath, 'desc': repr(desc)}
+        case = {'tree': tree.to_json(), 'path': vpath, 'desc': repr(desc),
+                'single_paths': sorted(set(tree.files) | {ign, look, look + '/z', j('nonexistent'), ign + '/deep/er'})}
         vs, v = check_case(case, scratch, stats)
         stats.case(desc, nontrivial=v.kind != 'dontcare')
         if len(stats.samples) < 3:
@@ -636,10 +657,39 @@ def f6_run(spec, tier, seed, scratch, stats):
                 stats.violation(x['sig'], x['case'], x['message'])
 
 
+# ---- F7: sub-path verification with string-prefix look-alike siblings
+
+def f7_shards(tier, seed):
+    return [('F7', ma, mab) for ma in (0, 1) for mab in (0, 1)]
+
+
+def f7_run(spec, tier, seed, scratch, stats):
+    _f, ma, mab = spec
+    files = {'a/x': b'1', 'ab/y': b'22', 'ab/a/z': b'333', 'k': b'4'}
+    hashes = ('SHA1',)
+
+    def make():
+        top = [('F', 'DATA', 'k', hashes)]
+        specs = [MSpec(TOP, top)]
+        if ma:
+            specs.append(MSpec('a/Manifest', [('F', 'DATA', 'a/x', hashes)]))
+            top.append(('M', 'a/Manifest', hashes))
+        else:
+            top.append(('F', 'DATA', 'a/x', hashes))
+        if mab:
+            specs.append(MSpec('ab/Manifest', [('F', 'DATA', 'ab/y', hashes), ('F', 'DATA', 'ab/a/z', hashes)]))
+            top.append(('M', 'ab/Manifest', hashes))
+        else:
+            top += [('F', 'DATA', 'ab/y', hashes), ('F', 'DATA', 'ab/a/z', hashes)]
+        return Scenario(files, specs)
+    run_mutations(make, 1 if tier == 'quick' else 2, spec, ['', 'a', 'ab', 'ab/a'], stats, scratch,
+                  single=True)
+
+
 FAMILIES = {
     'F1': (f1_shards, f1_run), 'F2': (f2_shards, f2_run), 'F2sib': (None, f2_run),
     'F3': (f3_shards, f3_run), 'F4': (f4_shards, f4_run), 'F5': (f5_shards, f5_run),
-    'F6': (f6_shards, f6_run),
+    'F6': (f6_shards, f6_run), 'F7': (f7_shards, f7_run),
 }
 
 
